@@ -672,6 +672,31 @@ Proof. induction m as [|m IH]; intros t H; destruct (even_list _ t H) as [[_ ->]
       reflexivity. Qed.
 End PolarP.
 
+(* ---------------- photons without P annotation ---------------- *)
+Section Plain.
+Variable R : cring.
+Variable eqb : R -> R -> bool.
+(* inputs that differ only by writing a plain photon as {P:H} (or any two spellings of the same Jones vectors)
+   are the same input for every stage: conversion, preparation matrix, amplitudes, specification *)
+Definition same_photons (a b : ainput R) : Prop :=
+  Forall2 (Forall2 (fun p q => photon_jones p = photon_jones q)) a b.
+Lemma resolve_same a b : same_photons a b -> resolve_photons a = resolve_photons b.
+Proof. unfold resolve_photons. induction 1 as [|ra rb a b Hr _ IH]; simpl. reflexivity. f_equal; auto.
+  induction Hr as [|p q ra rb Hp _ IHr]; simpl. reflexivity. f_equal; auto. Qed.
+Definition spell_H (p : photon R) : photon R := match p with None => Some default_jones | Some v => Some v end.
+Theorem plain_is_H (inp : ainput R) : resolve_photons (map (map spell_H) inp) = resolve_photons inp.
+Proof. unfold resolve_photons. rewrite map_map. apply map_ext. intros md. rewrite map_map. apply map_ext.
+  intros [v|]; reflexivity. Qed.
+Theorem plain_is_H_everywhere (inp : ainput R) (U : mat R) m ts :
+  convert eqb (resolve_photons (map (map spell_H) inp)) = convert eqb (resolve_photons inp) /\
+  impl_amps eqb U m (resolve_photons (map (map spell_H) inp)) ts = impl_amps eqb U m (resolve_photons inp) ts /\
+  forall t, spec_amp U m (resolve_photons (map (map spell_H) inp)) t = spec_amp U m (resolve_photons inp) t.
+Proof. rewrite plain_is_H. repeat split. Qed.
+(* the default vector is the one the label H denotes *)
+Lemma default_is_H (ii rh : R) : jones_standard ii rh LH = default_jones.
+Proof. reflexivity. Qed.
+End Plain.
+
 (* ---------------- labels ---------------- *)
 Section Labels.
 Variable R : cring.
